@@ -55,6 +55,7 @@ _coerce_scheme_options = dict(
     default_rounds=int,
     vary_rounds=_coerce_vary_rounds,
     salt_size=int,
+    version=int,
 )
 
 
